@@ -16,7 +16,7 @@ ASSUMPTIONS = [
 ]
 PT = b"s:http|t:8080|h:com|h:a|"
 PTS = b"s:https|t:8080|h:com|h:a|"
-PROBES = [PT, PT + b"p:x|p:y|", PTS + b"h:www|", A, Ax, Axy, Axy + b"p:q|", Ab, Aw, Awx, S, Sx, Bb, C1, b"s:http|", b"s:http|h:org|", A + b"p:a|", b"s:ftp|h:com|h:a|p:x|", Bb + b"h:www|p:k|", b"s:https|h:com|h:b|h:c|p:z|"]
+PROBES = [b"s:http|h:LOCALHOST|p:x|p:y|", b"s:https|h:LOCALHOST|", PT, PT + b"p:x|p:y|", PTS + b"h:www|", A, Ax, Axy, Axy + b"p:q|", Ab, Aw, Awx, S, Sx, Bb, C1, b"s:http|", b"s:http|h:org|", A + b"p:a|", b"s:ftp|h:com|h:a|p:x|", Bb + b"h:www|p:k|", b"s:https|h:com|h:b|h:c|p:z|"]
 
 
 class Check(HCheck):
@@ -35,6 +35,8 @@ class Check(HCheck):
             al.page(Awx),
             al.page(Bb),
             al.page(C1),
+            al.page(b"s:http|h:LOCALHOST|p:x|"),  # the family's 'localhost' alternative only matches case-insensitively
+            al.rule(b"s:http|h:LOCALHOST|", "path1"),
             al.page(PT + b"p:x|"),  # with a port stem: rules and variations must keep it
             al.page(PTS + b"h:www|p:y|p:z|"),
             al.links((Ab, S + b"h:www|p:k|")),
